@@ -1957,6 +1957,14 @@ class CreateQueryBuilder:
         self._if_not_exists = False
         self.dialect = dialect
 
+    def __copy__(self) -> "Self":
+        newone = type(self).__new__(type(self))
+        newone.__dict__.update(self.__dict__)
+        newone._columns = copy(self._columns)
+        newone._period_fors = copy(self._period_fors)
+        newone._uniques = copy(self._uniques)
+        return newone
+
     @builder
     def create_table(self, table: Table | str) -> "Self":  # type:ignore[return]
         """
